@@ -7,6 +7,8 @@ ROOT = os.path.dirname(os.path.dirname(os.path.abspath(__file__)))
 # evidence is only ever written for /repo itself; runs against a scratch tree (VERIF_REPO, development
 # and mutation testing) write theirs under work/ so that they cannot clobber the committed evidence
 EVID = os.path.join(ROOT, "evidence") if os.path.abspath(runner.REPO) == "/repo" else os.path.join(ROOT, "work", "evidence-scratch")
+if os.environ.get("VERIF_EVIDENCE_DIR"):      # rehearsal runs (e.g. a thorough sweep next to a quick pass) that must not replace the committed evidence
+    EVID = os.environ["VERIF_EVIDENCE_DIR"]
 FINDINGS = os.path.join(ROOT, "findings.d")   # known findings: one committed jsonl file per property
 
 
